@@ -208,6 +208,19 @@ def finish(mod, tier, seed, agg, t0, replaying=False):
             text=True,
             env={**os.environ, "VERIF_NO_REPRO": "1"},
         )
+        if p.returncode != 1 and "replay_case" in new[0][1]:
+            # the minimal replay (the failing history alone) is quiet: the violation may depend on the calls that preceded it on the
+            # same objects within the case (state leaking between calls is itself the defect) - replay the WHOLE case instead
+            case0, f0 = new[0]
+            full = write_replay(pid, case0, {k: v for k, v in f0.items() if k != "replay_case"})
+            p2 = subprocess.run([os.path.join(VERIF, "check"), pid, "--replay", full], capture_output=True, text=True,
+                                env={**os.environ, "VERIF_NO_REPRO": "1"})
+            if p2.returncode == 1:
+                lines[lines.index(f"VIOLATION property={pid} replay={replay_paths[0]}")] = f"VIOLATION property={pid} replay={full}"
+                lines.append(f"NOTE property={pid}: the failing history alone ({replay_paths[0]}) does not reproduce the violation; "
+                             f"the whole case does ({full}) - the result depends on earlier calls on the same objects")
+                replay_paths[0] = full
+                p = p2
         if p.returncode != 1:
             lines.append(
                 f"HARNESS-ERROR property={pid}: first violation did not reproduce from its replay file "
